@@ -7,7 +7,11 @@ package shellfuncsfile
 
 //@ func NewDefaultConverter() (c)
 //@   props C17 C20
+//@   ghost cl map[string]Filter = nil
+//@   ghost n int = 0
+//@   on call maps.Clone(m) (r): assert(m == defaultFilters && n == 0, "every_converter_gets_its_own_copy_of_the_default_filter_table"); cl = r; n++
 //@   ensures usable: c != nil
+//@   ensures own_filter_table: n == 1 && c.filters == cl && c.filters != defaultFilters
 
 //@ type Converter as c
 //@   lock filtersL protects filters
